@@ -141,7 +141,10 @@ def gen_cohorts(rng, rounds, n_clients, kmax=4, must=None, avoid=None):
     sel = sorted(rng.choice(pool, size=min(k, len(pool)), replace=False).tolist())
     if must is not None and must not in sel:
       sel = sorted(sel[:-1] + [must]) if len(sel) == kmax else sorted(sel + [must])
-    out.append([int(c) for c in sel])
+    sel = [int(c) for c in sel]
+    if rng.rand() < 0.5:
+      rng.shuffle(sel)        # clients are handed to apply() in arbitrary (not sorted-id) order
+    out.append(sel)
   return out
 
 
